@@ -778,6 +778,14 @@ def mini_exec(fn: ast.FunctionDef, args: Dict[str, object], budget: int = 2000, 
                 if e.attr not in base:
                     raise _PathEval.Unknown(f"attribute {e.attr} of a sample object")
                 return base[e.attr]
+        if isinstance(e, ast.Call) and isinstance(e.func, ast.Attribute):
+            # a sample object may carry a stand-in for one of its methods (a function of the analyser)
+            try:
+                recv0 = ev(e.func.value)
+            except _PathEval.Unknown:
+                recv0 = None
+            if isinstance(recv0, SampleObj) and e.func.attr in recv0 and callable(recv0[e.func.attr]) and not isinstance(recv0[e.func.attr], (SampleObj, ClassTok)):
+                return recv0[e.func.attr](*[ev(a_) for a_ in e.args], **{k.arg: ev(k.value) for k in e.keywords if k.arg})
         if isinstance(e, ast.Call) and isinstance(e.func, ast.Attribute) and methods and e.func.attr in methods and _depth < 12:
             try:
                 recv = ev(e.func.value)
